@@ -106,25 +106,24 @@ theorem gen_best_over_steps (d : Dir) (t : PTrial) :
 
 /-! ## `_get_percentile_intermediate_result_over_trials` -/
 
-def envPercOver (completed : List PTrial) (d : Dir) (step : Int) (q : Rat) (nMin : Nat) : Env := fun k st =>
+def envPercOver (completed : List PTrial) (d : Dir) (step : Int) (q : Rat) (nMin : Nat) : Env := fun k _ =>
   match k with
   | 0 => .i completed.length
   | 1 => .i (valuesAtStep completed step).length
   | 2 => .i nMin
   | 3 => dirVal d
-  | 4 => match st.locals with
-    | [.x (.fin q')] => .x (npPercentile (valuesAtStep completed step) q')
-    | _ => .err
-  | 5 => .x (.fin q)
+  | 4 => .x (xneg (npPercentile ((valuesAtStep completed step).map xneg) q))
+  | 5 => .x (npPercentile (valuesAtStep completed step) q)
   | _ => .err
 
-/-- the `ValueError` for an empty list is the first statement; otherwise the value is the model's -/
+/-- the `ValueError` for an empty list is the first statement; otherwise the value is the model's: `nan` below
+`n_min_trials`, `-nanpercentile(-values, percentile)` under MAXIMIZE (atom 4), `nanpercentile(values, percentile)` otherwise -/
 theorem gen_percentile_over_trials (completed : List PTrial) (d : Dir) (step : Int) (q : Rat) (nMin : Nat) :
     (completed = [] → ∃ st, interp (envPercOver completed d step q nMin) 0 PrunersSkel.percentileOverTrials = .raise 0 st) ∧
     (completed ≠ [] → (interp (envPercOver completed d step q nMin) 0 PrunersSkel.percentileOverTrials).val =
       some (.x (percentileOverTrials completed d step q nMin))) := by
   unfold interp exec initSt PrunersSkel.percentileOverTrials percentileOverTrials
-  simp only [execWith, evalE, envPercOver, veq, vcmp, truthy, List.map_cons, List.map_nil, setLocal]
+  simp only [execWith, evalE, envPercOver, veq, vcmp, truthy, List.map_nil]
   constructor
   · intro h; subst h; simp
   · intro h
@@ -135,10 +134,7 @@ theorem gen_percentile_over_trials (completed : List PTrial) (d : Dir) (step : I
     simp only [h0, e1, decide_false]
     by_cases h1 : (valuesAtStep completed step).length < nMin
     · simp [h1, Res.val]
-    · cases d
-      · simp [h1, dirVal, Res.val]
-      · have : (100 : Rat) + -q = 100 - q := by ring
-        simp [h1, dirVal, Res.val, varith, xsub, xadd, xneg, this]
+    · cases d <;> simp [h1, dirVal, Res.val]
 
 /-! ## ThresholdPruner.prune -/
 
@@ -707,10 +703,11 @@ theorem gen_percentileOverTrials_tables :
     "len(intermediate_values)",
     "n_min_trials",
     "direction",
-    "float(np.nanpercentile(np.array(intermediate_values, dtype=float), percentile))",
-    "percentile"] ∧
-    PrunersSkel.percentileOverTrials.locals = ["percentile"] ∧
-    PrunersSkel.percentileOverTrials.data = ["intermediate_values = [t.intermediate_values[step] for t in completed_trials if step in t.intermediate_values]"] := ⟨rfl, rfl, rfl⟩
+    "float(-np.nanpercentile(-values, percentile))",
+    "float(np.nanpercentile(values, percentile))"] ∧
+    PrunersSkel.percentileOverTrials.locals = [] ∧
+    PrunersSkel.percentileOverTrials.data = ["intermediate_values = [t.intermediate_values[step] for t in completed_trials if step in t.intermediate_values]",
+    "values = np.array(intermediate_values, dtype=float)"] := ⟨rfl, rfl, rfl⟩
 
 theorem gen_medianInit_tables :
     PrunersSkel.medianInit.atoms = ["super().__init__(50.0, n_startup_trials, n_warmup_steps, interval_steps, n_min_trials=n_min_trials)"] ∧
